@@ -220,3 +220,5 @@ func argsAfterTier() []string {
 }
 
 func jsonUnmarshal(b []byte, v any) { _ = json.Unmarshal(b, v) }
+
+func os_Getenv(k string) string { return os.Getenv(k) }
